@@ -328,6 +328,9 @@ def real_ops_case(ctx, seed, r):
         orig = getattr(MF.MutableFileNode, name)
         saved[name] = orig
 
+        import functools
+
+        @functools.wraps(orig)
         def wrapper(self, *a, **kw):
             tok = (name, len(log))
             log.append(("S", tok))
@@ -345,13 +348,17 @@ def real_ops_case(ctx, seed, r):
         with G.Grid(num_clients=1, num_servers=5, k=2, n=4, happy=1, seed=seed, timeout=180) as g:
             node = g.run(g.create_mutable(b"v0", version=r.choice(["sdmf", "mdmf"])))
             del log[:]
-            nops = r.choice([3, 4, 4])
+            # every case: a long first operation, then each kind of serialised operation
+            # requested while it is still running (plus random extras)
+            first = r.choice(["overwrite", "modify"])
+            rest = ["servermap", "read", "modify", "overwrite"]
+            r.shuffle(rest)
+            kinds = [first] + rest[:r.choice([3, 4])] + [r.choice(["read", "modify"])]
             plan = []
             expect = b"v0"
             reads_expected = []
             ds = []
-            for j in range(nops):
-                kind = r.choice(["overwrite", "modify", "read", "servermap", "modify", "read"])
+            for j, kind in enumerate(kinds):
                 plan.append(kind)
                 if kind == "overwrite":
                     data = b"ow%d-" % j + bytes([65 + j]) * r.randint(0, 40)
